@@ -136,6 +136,70 @@ def stmt_space(tier):
     return progs
 
 
+NUM_LITS = [("1.0", 1.0), ("1.50", 1.5), ("007", 7.0), ("1e3", 1000.0), ("1E3", 1000.0), ("1e+3", 1000.0), ("1e-3", 0.001), ("0.1", 0.1), ("12345678901234567890", 12345678901234567890.0),
+            ("1.5e2", 150.0), ("0.0", 0.0), ("10", 10.0), ("1e10", 1e10), ("1.7976931348623157e308", 1.7976931348623157e308), ("4.9e-324", 5e-324), ("1e400", float("inf")), ("00.5", 0.5),
+            ("9007199254740993", 9007199254740992.0), ("0", 0.0), ("255", 255.0), ("256", 256.0), ("65535", 65535.0), ("65536", 65536.0), ("0.30000000000000004", 0.1 + 0.2), ("123.456", 123.456)]
+STR_LITS = [("'a\\nb'", "a\nb"), ("'a\\tb'", "a\tb"), ("'a\\\\b'", "a\\b"), ("'it\\'s'", "it's"), ("\"dq 'x'\"", "dq 'x'"), ("'dq \"y\"'", 'dq "y"'), ("'\\u{41}'", "A"), ("'\\r'", "\r"),
+            ("'\\u{1F600}'", "\U0001F600"), ("\"a\\\"b\"", 'a"b'), ("'h\u00e9llo'", "h\u00e9llo"), ("'\u65e5\u672c'", "\u65e5\u672c"), ("''", ""), ("' '", " "), ("'$x'", "$x"), ("'a$'", "a$"), ("'{}'", "{}")]
+
+
+def literal_programs():
+    out = []
+    for text, val in NUM_LITS:
+        lit = ["rawnum", text, val]
+        out.append([["print", [lit, ["bin", "+", lit, ["num", 0]], ["bin", "==", lit, lit], ["un", "-", lit], ["bin", "*", lit, ["num", 2]], ["list", [lit]], ["invoke", lit, "str", []]]],
+                    ["let", "v", lit], ["print", [["var", "v"], ["bin", "<", ["var", "v"], ["num", 1]], ["bin", "/", ["var", "v"], ["num", 4]]]]])
+    for text, val in STR_LITS:
+        lit = ["rawstr", text, val]
+        out.append([["print", [lit, ["invoke", lit, "len", []], ["bin", "+", lit, ["str", "|"]], ["bin", "==", lit, lit], ["list", [lit]]]],
+                    ["let", "v", lit], ["print", [["interp", ["<", ["var", "v"], ">"]], ["bin", "<", ["var", "v"], ["str", "b"]], ["invoke", ["var", "v"], "upCase", []]]]])
+    return out
+
+
+def opassign_programs():
+    out = []
+    V = lambda n: ["var", n]
+    for op, start, operand in (("+", 10, 3), ("-", 10, 3), ("*", 10, 3), ("/", 10, 4), ("+", "s", "t")):
+        def L(x):
+            return ["str", x] if isinstance(x, str) else ["num", x]
+        s0, o0 = L(start), L(operand)
+        # local, captured local, module variable, parameter
+        out.append([["fn", "f", ["p"], [["let", "a", s0], ["expr", ["opassign", op, "a", o0]], ["expr", ["opassign", op, "p", o0]], ["print", [V("a"), V("p"), ["opassign", op, "a", o0]]], ["return", V("a")]]],
+                    ["print", [["call", V("f"), [s0]]]]])
+        out.append([["fn", "f", [], [["let", "a", s0], ["let", "g", ["lambda", [], [["return", ["opassign", op, "a", o0]]], False]], ["print", [["call", V("g"), []], V("a")]], ["expr", ["opassign", op, "a", o0]],
+                                     ["return", ["list", [V("a"), ["call", V("g"), []]]]]]], ["print", [["call", V("f"), []]]]])
+        out.append([["let", "m", s0], ["expr", ["opassign", op, "m", o0]], ["fn", "f", [], [["expr", ["opassign", op, "m", o0]], ["return", V("m")]]], ["print", [V("m"), ["call", V("f"), []], V("m")]]])
+        # field through self, @ and another object; list index; map index; nested index
+        out.append([["class", "K", None, [("method", "init", [], [["expr", ["set", ["self"], "x", s0]], ["expr", ["set", ["self"], "y", s0]]]),
+                                         ("method", "m", [], [["expr", ["opset", op, ["self"], "x", o0]], ["return", ["list", [["get", ["self"], "x"], ["opset", op, ["self"], "y", o0]]]]])]],
+                    ["let", "k", ["call", V("K"), []]], ["print", [["invoke", V("k"), "m", []]]], ["expr", ["opset", op, V("k"), "x", o0]], ["print", [["get", V("k"), "x"], ["get", V("k"), "y"]]]])
+        out.append([["let", "l", ["list", [s0, s0]]], ["expr", ["opindex", op, V("l"), ["num", 0], o0]], ["expr", ["opindex", op, V("l"), ["num", -1], o0]], ["print", [V("l"), ["opindex", op, V("l"), ["num", 1], o0]]],
+                    ["let", "mm", ["map", [(["str", "a"], s0)]]], ["expr", ["opindex", op, V("mm"), ["str", "a"], o0]], ["print", [["index", V("mm"), ["str", "a"]]]],
+                    ["let", "n", ["list", [["list", [s0]]]]], ["expr", ["opindex", op, ["index", V("n"), ["num", 0]], ["num", 0], o0]], ["print", [V("n")]]])
+    # wrong operand types raise and leave the target unchanged
+    out.append([["let", "a", ["num", 1]], ["try", [["expr", ["opassign", "+", "a", ["str", "x"]]]], "e", None, [["print", [["str", "err"], ["invoke", ["invoke", V("e"), "cls", []], "name", []]]]]], ["print", [V("a")]]])
+    out.append([["let", "l", ["list", [["num", 1]]]], ["try", [["expr", ["opindex", "-", V("l"), ["num", 0], ["nil"]]]], "e", None, [["print", [["str", "err"], ["invoke", ["invoke", V("e"), "cls", []], "name", []]]]]], ["print", [V("l")]]])
+    out.append([["let", "l", ["list", [["num", 1]]]], ["try", [["expr", ["opindex", "+", V("l"), ["num", 3], ["num", 1]]]], "e", None, [["print", [["str", "err"], ["invoke", ["invoke", V("e"), "cls", []], "name", []]]]]], ["print", [V("l")]]])
+    return out
+
+
+def elseif_programs():
+    out = []
+    for x in range(0, 5):
+        for nbranches in (1, 2, 3):
+            for has_else in (False, True):
+                chain = [["print", [["str", "else"]]]] if has_else else None
+                for k in range(nbranches, 0, -1):
+                    node = ["if", ["bin", "==", ["var", "x"], ["num", k]], [["print", [["str", "b%d" % k]]], ["let", "inner", ["num", k]]], chain]
+                    if k > 1:
+                        node.append("elseif")
+                        chain = [node]
+                    else:
+                        chain = node
+                out.append([["let", "x", ["num", x]], chain, ["print", [["str", "after"], ["var", "x"]]]])
+    return out
+
+
 class C01(Check):
     id = "C01"
     level = "exploration"
@@ -159,6 +223,8 @@ class C01(Check):
                 yield ("expr", e, ["module", "lambda"], ["min", "full"])
         for i, p in enumerate(stmt_space(tier)):
             yield ("stmt", p, None, LAYOUTS if th else ["min", "comments"])
+        for p in literal_programs() + opassign_programs() + elseif_programs():
+            yield ("stmt", p, None, ["min", "full", "comments"])
 
     def describe(self, spec):
         if spec[0] == "expr":
@@ -205,7 +271,7 @@ def main(tier):
     memo = {}
     chk.rule = ("(expr) all trees with <= 1 operator over an 11 leaf alphabet x 4 positions x 5 layouts; quick: all trees with 2 operators over a 5 leaf "
                 "alphabet x 2 positions x 2 layouts; thorough: 2 operators over the full alphabet and 3 operators over 4 leaves; operators: ! - (unary) "
-                "+ - * / < <= > >= == != && || ?: and assignment; (stmt) %d control-flow/function programs x layouts. oracle = reference evaluator. "
+                "+ - * / < <= > >= == != && || ?: and assignment; (stmt) %d control-flow/function programs x layouts, plus literal spellings (25 number, 17 string literals), compound assignment (5 operator/type combinations x local, captured, module, parameter, field via self/object, list/map/nested index) and else-if chains. oracle = reference evaluator. "
                 "non-trivial = case with at least one operator or statement program" % len(stmt_space(tier)))
     merged = explore(chk, tier, cap_s=(1500 if tier == "thorough" else 200))
     return report.finish(chk, tier, merged, t0)
